@@ -123,6 +123,11 @@ func c03PassiveAlphabet() []c03Letter {
 			return ref.ACK, p + 1, w[i%len(w)], nil
 		}})
 	}
+	// a wrong ACK that also lacks the timestamp option although timestamps were negotiated: the
+	// acknowledgement number is judged first (it is still answered by a reset)
+	L = append(L, c03Letter{"ACK-wrong1-noTS", func(p, s uint32) (uint8, uint32, uint32, []byte) {
+		return ref.ACK, p + 1, c03Wrong(s)[1], nil
+	}})
 	return L
 }
 
@@ -199,7 +204,7 @@ func c03Passive(cookie bool, pISS uint32, opts []byte, seq []int, alpha []c03Let
 		var o []byte
 		if flags&ref.SYN != 0 {
 			o = opts
-		} else if tsOn && flags&ref.RST == 0 {
+		} else if tsOn && flags&ref.RST == 0 && !strings.HasSuffix(l.name, "-noTS") {
 			// RFC 7323: once timestamps are negotiated every non-reset segment carries them
 			o = ref.PadOpts(ref.OptTS(22222, tsEcho))
 		}
@@ -594,7 +599,7 @@ func c03Run(job, tier string, deadline time.Time) *engine.Result {
 	case "options":
 		cookie := parts[1] == "cookie"
 		alpha := c03PassiveAlphabet()
-		third := []int{2, 7, 8, 9, 10, 11} // right ACK and the wrong ACKs
+		third := []int{2, 7, 8, 9, 10, 11, 12} // right ACK and the wrong ACKs (the last without timestamps)
 		for _, os := range c03OptionSets() {
 			for _, p := range c03PeerISS {
 				for _, t := range third {
